@@ -556,6 +556,41 @@ class Fn(object):
                     lines.append(s.line)
         return lines
 
+    def flag_locals(self):
+        """Locals that only ever hold integer constants (`int release = 1; ... release = 0; ... if (release)`): status
+        flags of single-exit code.  Their value is tracked along each path like a folded helper's return value."""
+        c = self.__dict__.get('_flag_locals')
+        if c is not None:
+            return c
+        vals = {}
+        bad = set()
+        for s in self.sites():
+            ev = s.ev
+            if ev['k'] == 'decl' and ev.get('var'):
+                v = ev['var']
+                if ev.get('init') is None:
+                    continue
+                k = const_of(ev['init'])
+                if isinstance(k, int) and 'int' in (ev.get('t') or '') and '*' not in (ev.get('t') or ''):
+                    vals.setdefault(v, set()).add(k)
+                else:
+                    bad.add(v)
+            elif ev['k'] == 'store' and is_var(ev.get('lhs')) and ev['lhs'].get('sc') == 'local':
+                v = ev['lhs']['name']
+                k = const_of(ev.get('rhs')) if ev.get('op') == '=' else None
+                if isinstance(k, int) and 'int' in (ev['lhs'].get('t') or '') and '*' not in (ev['lhs'].get('t') or ''):
+                    vals.setdefault(v, set()).add(k)
+                else:
+                    bad.add(v)
+            # address taken: someone else may write it
+            for ex in (ev.get('args') or []) + [ev.get('rhs'), ev.get('init')]:
+                for x in walk(ex or {}):
+                    if isinstance(x, dict) and x.get('k') == 'un' and x.get('op') == '&' and is_var(x.get('e')):
+                        bad.add(x['e']['name'])
+        c = {v for v, ks in vals.items() if v not in bad and len(ks) >= 2 and not v.startswith('__ret@')}
+        self.__dict__['_flag_locals'] = c
+        return c
+
     def _forward_with_retconsts(self, init, on_event, on_edge, limit, stop):
         """Folded helpers return through synthetic `__ret@...` variables.  Track what was last stored
         into them (a constant, or the returned expression) next to the caller's abstract state, so that
@@ -564,8 +599,10 @@ class Fn(object):
         presented to the analysis as edges on that expression's conjuncts."""
         exprs = {}
 
+        flags_ = self.flag_locals()
+
         def is_ret(e):
-            return isinstance(e, dict) and e.get('k') == 'var' and e.get('name', '').startswith('__ret@')
+            return isinstance(e, dict) and e.get('k') == 'var' and (e.get('name', '').startswith('__ret@') or e.get('name') in flags_)
 
         def derive(e, truth, out):
             if isinstance(e, dict) and e.get('k') == 'un' and e.get('op') == '!':
@@ -594,6 +631,10 @@ class Fn(object):
                     d[ev['lhs']['name']] = ('e', s.key)
                 else:
                     d.pop(ev['lhs']['name'], None)
+                rc = tuple(sorted(d.items()))
+            elif ev['k'] == 'decl' and ev.get('var') in flags_ and isinstance(const_of(ev.get('init')), int):
+                d = dict(rc)
+                d[ev['var']] = ('c', const_of(ev['init']))
                 rc = tuple(sorted(d.items()))
             elif ev['k'] in ('store', 'decl') and rc:
                 # `req = helper(...)`: the caller's variable carries what the helper returned; any other store ends that
@@ -661,7 +702,7 @@ class Fn(object):
         Returns (before, at_exit): before[(bid, idx)] = set of states just before that
         event; at_exit = set of states reaching the exit block.  Finite domains only.
         """
-        if getattr(self, 'inlined', 0) and not getattr(self, '_in_wrapped', False):
+        if (getattr(self, 'inlined', 0) or self.flag_locals()) and not getattr(self, '_in_wrapped', False):
             return self._forward_with_retconsts(init, on_event, on_edge, limit, stop)
         states_in = collections.defaultdict(set)
         states_in[self.entry].add(init)
